@@ -36,6 +36,11 @@ def tables(ctx):
                     continue
                 f, h, body = zckref.build_file(pieces, comp=0, htype=1, ctype=3, dict_=d)
                 out.append(("%s%d%s" % (vname, n, "+dict" if d else ""), f))
+    # zstd tables with chunks whose content is empty: they have stored bytes (an empty frame) and size 0 - what is requested
+    # goes by stored bytes
+    for n, pieces in ((3, [b"abc", b"", b"defg"]), (4, [b"", b"xy", b"", b"z" * 40]), (5, [b"q", b"", b"", b"rr", b""])):
+        f, h, body = zckref.build_file(pieces, comp=2, htype=1, ctype=3)
+        out.append(("zempty%d" % n, f))
     return out
 
 
